@@ -11,6 +11,8 @@ CONSTANTS MaxImp = {maximp}
           WriteAll = {writeall}
           MaxDown = {maxdown}
           MaxHist = 80
+          MaxBad = {maxbad}
+          BadPersists = {badp}
 {obs}
 VIEW View
 CONSTRAINT Bound
@@ -52,7 +54,8 @@ def build_server(ctx):
 
 
 PROBE = [{"op": "Import", "k": 1}] + [{"op": "Step"}] * 14 + [{"op": "Import", "k": 2}] + [{"op": "Step"}] * 14 + \
-        [{"op": "Crash"}, {"op": "Restart"}]
+        [{"op": "Reject", "k": 9, "kind": "cut"}] + [{"op": "Step"}] * 14 + [{"op": "Reject", "k": 9, "kind": "garbage"}] + \
+        [{"op": "Step"}] * 14 + [{"op": "Crash"}, {"op": "Restart"}]
 
 
 def obs_consts(prog=()):
@@ -65,9 +68,11 @@ def obs_consts(prog=()):
 def observed_program(trace_path):
     """the sequence of hook points persist_snapshot really passes, and whether the file it writes holds the
     whole live graph or only the import of the request (read from the probe run of the real code)"""
-    prog, cur, writes_all = None, None, None
+    prog, cur, writes_all, bad_persists = None, None, None, False
     for ln in open(trace_path):
         ev = json.loads(ln)
+        if ev.get("ev") == "Reject" and ev.get("res") == "begin":
+            bad_persists = True     # an upload that is going to be refused reached persist_snapshot
         if ev.get("ev") == "Import":
             if ev.get("res") != "begin":
                 raise ToolError("probe: the import request did not reach persist_snapshot/begin: %s" % ln[:300])
@@ -82,7 +87,7 @@ def observed_program(trace_path):
             cur = None
     if not prog or writes_all is None:
         raise ToolError("probe: could not read the persist_snapshot program from the probe trace")
-    return prog, writes_all
+    return prog, writes_all, bad_persists
 
 
 def drop_prefixes(scripts):
@@ -100,20 +105,24 @@ def run(ctx):
     W = 4
     # (a) the design: the repaired step order, whole live graph written; every ip x {crash, power loss} x 1..3 imports
     ctx.tlc_gen("MC_FsPersist", GEN.format(maximp=3, prog="<- ProgFixed", writeall="TRUE", maxdown=2, emit="",
-                                           inv="RestartOK", obs=obs_consts()), "design", workers=W, timeout=2400)
+                                           inv="RestartOK", obs=obs_consts(), maxbad=1, badp="FALSE"), "design", workers=W, timeout=2400)
     # (b) anti-vacuity: each of these designs must violate RestartOK
     tests = [("legacy-marker-first", "<- ProgLegacy", "TRUE"), ("only-last-import", "<- ProgFixed", "FALSE")]
     if not q:
         tests += [("no-dir-fsync", "<- ProgNoDirSync", "TRUE"), ("no-data-fsync", "<- ProgNoDataSync", "TRUE"),
                   ("marker-first-dirsync", "<- ProgMarkerFirst", "TRUE")]
     for name, prog, wa in tests:
-        ctx.tlc_gen("MC_FsPersist", GEN.format(maximp=2, prog=prog, writeall=wa, maxdown=1, emit="", inv="RestartOK", obs=obs_consts()),
-                    "selftest-" + name, expect_violation=True, workers=2)
+        ctx.tlc_gen("MC_FsPersist", GEN.format(maximp=2, prog=prog, writeall=wa, maxdown=1, emit="", inv="RestartOK", obs=obs_consts(),
+                                               maxbad=0, badp="FALSE"), "selftest-" + name, expect_violation=True, workers=2)
+    # a handler that persists the upload before the import has accepted it: a refused upload replaces the committed snapshot
+    ctx.tlc_gen("MC_FsPersist", GEN.format(maximp=2, prog="<- ProgFixed", writeall="TRUE", maxdown=1, emit="", inv="RestartOK",
+                                           obs=obs_consts(), maxbad=1, badp="TRUE"), "selftest-persist-before-import",
+                expect_violation=True, workers=2)
     # (c) probe: which steps does the real persist_snapshot perform, and what does it write
     pp = ctx.write_scripts("probe", [PROBE])
     ptrace = ctx.run_harness("fspersist", pp, name="probe")
-    prog, writes_all = observed_program(ptrace)
-    ctx.log("observed program:", prog, "writes whole graph:", writes_all)
+    prog, writes_all, bad_persists = observed_program(ptrace)
+    ctx.log("observed program:", prog, "writes whole graph:", writes_all, "refused uploads reach persist_snapshot:", bad_persists)
     ctx.cov["observed_program"] = prog
     # (d) every crash point of the REAL program: TLC enumerates ip x {crash, power-loss outcome} x histories and emits
     #     one script per Restart / Ack transition; no invariant here - the recorded traces are judged by TLC below
@@ -121,6 +130,7 @@ def run(ctx):
     scripts += ctx.tlc_gen("MC_FsPersist",
                            GEN.format(maximp=3, prog="<- ProgObserved", obs=obs_consts(prog),
                                       writeall="TRUE" if writes_all else "FALSE", maxdown=1 if q else 2,
+                                      maxbad=1, badp="TRUE" if bad_persists else "FALSE",
                                       emit="ACTION_CONSTRAINT Emit", inv=""), "crashpoints", workers=W, timeout=2400)
     scripts = drop_prefixes(scripts)
     if len(scripts) > (400 if q else 6000):
@@ -132,7 +142,9 @@ def run(ctx):
                "the creation of <data>/snapshots itself and I/O errors during persist_snapshot are not modelled",
                "a process crash is the unwinding of the request thread at a hook point of persist_snapshot; restart = "
                "restore_persisted_snapshots into a fresh store; the boot sequence of main.rs is covered separately (stage e)",
-               "import k is a snapshot holding one node with property k; a graph is abstracted to the set of k it holds")
+               "import k is a snapshot holding one node with property k; a graph is abstracted to the set of k it holds",
+               "refused uploads: a snapshot whose gzip trailer is cut off (valid header, every record readable, import fails at the "
+               "end) and a non-gzip body, at most one per history, after at least one acknowledged import")
     sp = ctx.write_scripts("fspersist", scripts)
     tr = ctx.run_harness("fspersist", sp)
     ctx.validate("FsPersist_Trace", TRACE, tr)
